@@ -675,3 +675,42 @@ pub async fn probe_flood_real(n: usize) -> Value {
            "answered_within_1s": answered_1s, "answered_only_after_timeout_wakeup": answered_late,
            "never_answered_although_response_arrived": lost})
 }
+
+/// The same-ID burst under tokio's own executor through the public DnsExchange API: one request,
+/// `burst` responses with its ID readable at once, a consumer task that takes every item as soon
+/// as it is woken.
+pub async fn probe_burst_real(burst: usize) -> Value {
+    use hickory_net::runtime::TokioRuntimeProvider;
+    use hickory_net::xfer::{DnsExchange, DnsHandle};
+    let addr: SocketAddr = "192.0.2.53:53".parse().unwrap();
+    let inb = Arc::new(Mutex::new(Inbound::default()));
+    let (handle, mut out_rx) = BufDnsStreamHandle::new(addr);
+    let mux = DnsMultiplexer::new(ScriptedStream { inb: inb.clone(), addr }, handle).with_timeout(Duration::from_millis(5000));
+    let (ex, bg) = DnsExchange::<TokioRuntimeProvider>::from_stream(mux);
+    let task = tokio::spawn(bg);
+    let mut opts = DnsRequestOptions::default();
+    opts.use_edns = false;
+    let mut rx = ex.send(DnsRequest::from_query(Query::new(Name::from_ascii("zone.example.test.").unwrap(), RecordType::AXFR), opts));
+    let m = out_rx.next().await.expect("request on the wire");
+    let id = wire::parse(m.bytes()).map(|p| p.id).unwrap_or(0);
+    let consumer = tokio::spawn(async move {
+        let mut tags = Vec::new();
+        while let Some(Ok(resp)) = rx.next().await {
+            tags.push(wire::tag_of_response(&resp));
+        }
+        tags
+    });
+    tokio::task::yield_now().await;
+    let q = Question { name: vec![b"zone".to_vec()], qtype: 252, qclass: 1 };
+    {
+        let mut i = inb.lock().unwrap();
+        for k in 0..burst {
+            i.push(In::Msg(wire::build_response(id, std::slice::from_ref(&q), &q.name, k as u32 + 1)));
+        }
+    }
+    // the request times out after 5 s, which ends the consumer
+    let tags = consumer.await.unwrap_or_default();
+    task.abort();
+    json!({"probe": "same-id-burst-real-executor", "responses_arrived_at_once": burst, "received_by_consumer": tags.len(),
+           "received_tags": tags})
+}
